@@ -9,7 +9,11 @@ Action = namedtuple("Action", ["action", "params"])
 def parse(filename):
     patches = defaultdict(list)
     with codecs.open(filename, "r", encoding="utf-8") as f:
-        for line in f.readlines():
+        try:
+            lines = f.readlines()
+        except UnicodeDecodeError as e:
+            raise Exception("Patch file %s is not UTF-8 text: %s" % (filename, e))
+        for line in lines:
             if line.strip():
                 words = line.split()
                 if len(words) < 2:
